@@ -31,12 +31,6 @@ package wire
 //@   modifies nothing
 
 // range rejections of RFC 9000 §19.11 / §19.14 (iff: everything within range is accepted)
-//@ func parseMaxStreamsFrame
-//@   ensures [range-iff] iff(result2 == nil, len(b) > 0 && len(b) >= quicvarint.plen(b[0]) && quicvarint.vdec(b) <= 1152921504606846976)
-//@   ensures [value] implies(result2 == nil, uint64(result0.MaxStreamNum) == quicvarint.vdec(b) && result1 == quicvarint.plen(b[0]))
-//@ func parseStreamsBlockedFrame
-//@   ensures [range-iff] iff(result2 == nil, len(b) > 0 && len(b) >= quicvarint.plen(b[0]) && quicvarint.vdec(b) <= 1152921504606846976)
-//@   ensures [value] implies(result2 == nil, uint64(result0.StreamLimit) == quicvarint.vdec(b) && result1 == quicvarint.plen(b[0]))
 
 // ---------------- CRYPTO ----------------
 //@ pred (f *CryptoFrame) valid() = 0 <= f.Offset && f.Offset <= 4611686018427387903
